@@ -41,6 +41,16 @@ def _plan(draw, max_rows):
     order = draw(st.permutations(range(len(cols))))
     keys = draw(st.permutations(keys))
     plan = {"frame": {"n": n, "cols": [cols[i] for i in order]}, "keys": [list(k) for k in keys]}
+    if n >= 2 and draw(st.integers(0, 11)) == 0:
+        # stale-width history: short strings only, then a cell becomes a longer string that shares its prefix with
+        # another cell (anything remembered about the column's width is out of date at the second sort)
+        kc = cols[0]
+        kc["kind"] = "s"
+        kc["vals"] = [draw(st.sampled_from(["a", "b", "ab", "abc", "", "é"])) for _ in range(n)]
+        row = draw(st.integers(0, n - 1))
+        base = draw(st.sampled_from([v for v in kc["vals"] if v] or ["a"]))
+        plan["edits"] = [[kc["name"], row, base + draw(st.sampled_from(["a", "z", "zz", "0"]))]]
+        return plan
     if n and draw(st.integers(0, 2)) == 0:
         # history: sort, edit key cells of the same frame in place, sort again (anything cached about a column is stale)
         edits = []
